@@ -423,14 +423,14 @@ impl<'a> Chains<'a> {
             // operators hit: heads of the S-expression nodes
             for w in ans.split('(').skip(1) {
                 let mut it = w.split(' ');
-                let head = it.next().unwrap_or("");
+                let head = it.next().unwrap_or("").trim_end_matches(')');
                 match head {
                     "bin" | "un" | "is" | "like" | "any" | "all" => {
                         let k = it.next().unwrap_or("");
                         let k = if k.starts_with("Custom:") { "Custom" } else { k };
                         self.r.count(&format!("op/{head}.{k}"));
                     }
-                    "id" | "num" | "str" | "list" | "" => {}
+                    "id" | "num" | "str" | "dstr" | "ph" | "bool" | "null" | "list" | "" => {}
                     h => self.r.count(&format!("op/{h}")),
                 }
             }
@@ -484,7 +484,7 @@ pub fn corr_chains(dir: &str, seed: u64, tier: &str) -> Report {
         }
         let lim = 50usize;
         // ---- atoms and single operators, every truncation
-        for a in ["a", "a.b", "a.b.c", "\"a\"", "`a`", "[a]", "1", "1.5", "'s'", "\"s\"", "?", "$1", "TRUE", "false", "NULL", "(a)", "((a))", "a.'b'", "a.", "a.1", "()", "(a", "(a b)", ")", "", "_x 'a'", "+", "NOT", "- - a", "NOT NOT a", "-+-a", "a COLLATE b", "DATE", "x AND", "a -> b", "(a) -> b", "(a, b) -> c", "(a).b", "a b", "a 1", "a NOT b", "a NOT", "a AT b", "a AT TIME b", "a IS", "a IS NOT", "a IS b", "a IS DISTINCT b", "a IN", "a IN b", "a IN ()", "a IN (b,)", "a IN (b,,c)", "a IN (b c)", "a IN (SELECT 1)", "a IN UNNEST(b)", "a BETWEEN b", "a BETWEEN b OR c", "a BETWEEN b AND", "a LIKE b ESCAPE", "a LIKE b ESCAPE c", "a LIKE b ESCAPE \"c\"", "a LIKE b ESCAPE 1", "a SIMILAR b", "a::", "a::b", "a::INT(3)", "a::INT[]", "a::INT UNSIGNED", "a::VARCHAR(3)", "a = ANY", "a = ANY b", "a = ANY (b", "a = ANY (SELECT 1)", "a = ALL (b) c", "a || ANY (b)", "a AND ANY (b)", "a OPERATOR(+) b", "a DIV", "a[1]", "a:b", "a!", "a ! b", "a !", "a.b(c)", "f(a)", "a IS NULL IS NULL", "a::INT::TEXT", "a IS NULL COLLATE x", "a NOT NULL", "a NOTNULL", "CASE WHEN a THEN b END", "a b c d e f"] {
+        for a in ["a", "a.b", "a.b.c", "\"a\"", "`a`", "[a]", "1", "1.5", "'s'", "\"s\"", "?", "$1", "TRUE", "false", "NULL", "(a)", "((a))", "a.'b'", "a.", "a.1", "()", "(a", "(a b)", ")", "", "_x 'a'", "+", "NOT", "- - a", "NOT NOT a", "-+-a", "a COLLATE b", "DATE", "x AND", "a -> b", "(a) -> b", "(a, b) -> c", "(a).b", "a b", "a 1", "a NOT b", "a NOT", "a AT b", "a AT TIME b", "a IS", "a IS NOT", "a IS b", "a IS DISTINCT b", "a IN", "a IN b", "a IN ()", "a IN (b,)", "a IN (b,,c)", "a IN (b c)", "a IN (SELECT 1)", "a IN UNNEST(b)", "a BETWEEN b", "a BETWEEN b OR c", "a BETWEEN b AND", "a LIKE b ESCAPE", "a LIKE b ESCAPE c", "a LIKE b ESCAPE \"c\"", "a LIKE b ESCAPE 1", "a SIMILAR b", "a::", "a::b", "a::INT(3)", "a::INT[]", "a::INT UNSIGNED", "a::VARCHAR(3)", "a = ANY", "a = ANY b", "a = ANY (b", "a = ANY (SELECT 1)", "a = ALL (b) c", "a || ANY (b)", "a AND ANY (b)", "a OPERATOR(+) b", "a DIV", "a[1]", "a:b", "a!", "a ! b", "a !", "a.b(c)", "f(a)", "a IS NULL IS NULL", "a::INT::TEXT", "a IS NULL COLLATE x", "a NOT NULL", "a NOTNULL", "CASE WHEN a THEN b END", "a b c d e f", "a REGEXP RLIKE b", "a NOT REGEXP RLIKE b", "a RLIKE REGEXP b", "a IS NULL * b", "- a ^ b", "- a * b", "a LIKE b = c", "a = b LIKE c", "NOT a IS NULL", "a # b", "a << b", "a // b", "a DIV b DIV c", "a BETWEEN b = c AND d", "a = b BETWEEN c AND d", "a AT TIME ZONE b :: TEXT", "a :: TEXT AT TIME ZONE b", "a IS DISTINCT FROM b AND c", "a IS NOT DISTINCT FROM b + c"] {
             if let Some(toks) = c.emit_sql(dn, d, lim, a, "atoms") {
                 for pfx in prefixes.iter().take(3) {
                     let s = format!("{pfx} {a}");
@@ -674,6 +674,287 @@ pub fn corr_chains(dir: &str, seed: u64, tier: &str) -> Report {
     drop(c);
     r.distinct_nontrivial = distinct;
     r.dist.insert("unsupported_real_side".into(), unsupported);
+    r
+}
+
+
+// ---------------------------------------------------------------- stream `setops`
+use sqlparser::ast::{Query, Select, SelectItem, SetExpr, SetOperator, SetQuantifier};
+
+fn select_sexp(s: &Select) -> Option<String> {
+    // `SELECT n` only: one unnamed numeric projection, nothing else
+    let plain = Select {
+        distinct: None,
+        top: None,
+        projection: s.projection.clone(),
+        into: None,
+        from: vec![],
+        lateral_views: vec![],
+        prewhere: None,
+        selection: None,
+        group_by: sqlparser::ast::GroupByExpr::Expressions(vec![], vec![]),
+        cluster_by: vec![],
+        distribute_by: vec![],
+        sort_by: vec![],
+        having: None,
+        named_window: vec![],
+        qualify: None,
+        window_before_qualify: false,
+        value_table_mode: None,
+        connect_by: None,
+    };
+    if &plain != s || s.projection.len() != 1 {
+        return None;
+    }
+    match &s.projection[0] {
+        SelectItem::UnnamedExpr(Expr::Value(Value::Number(n, false))) => Some(format!("(sel {n})")),
+        _ => None,
+    }
+}
+
+fn query_body_sexp(q: &Query) -> Option<String> {
+    let plain = Query {
+        with: None,
+        body: q.body.clone(),
+        order_by: None,
+        limit: None,
+        limit_by: vec![],
+        offset: None,
+        fetch: None,
+        locks: vec![],
+        for_clause: None,
+        settings: None,
+        format_clause: None,
+    };
+    if &plain != q {
+        return None;
+    }
+    setexpr_sexp(&q.body)
+}
+
+pub fn setexpr_sexp(e: &SetExpr) -> Option<String> {
+    Some(match e {
+        SetExpr::Select(s) => select_sexp(s)?,
+        SetExpr::Query(q) => format!("(query {})", query_body_sexp(q)?),
+        SetExpr::SetOperation { op, set_quantifier, left, right } => {
+            let o = match op {
+                SetOperator::Union => "union",
+                SetOperator::Except => "except",
+                SetOperator::Intersect => "intersect",
+            };
+            let q = match set_quantifier {
+                SetQuantifier::All => "all",
+                SetQuantifier::Distinct => "distinct",
+                SetQuantifier::ByName => "byName",
+                SetQuantifier::AllByName => "allByName",
+                SetQuantifier::DistinctByName => "distinctByName",
+                SetQuantifier::None => "none",
+            };
+            format!("(setop {o} {q} {} {})", setexpr_sexp(left)?, setexpr_sexp(right)?)
+        }
+        _ => return None,
+    })
+}
+
+/// `SELECT n` is one unit of the set-operation alphabet; truncations and drops keep units whole
+fn set_units(toks: &[Token]) -> Vec<Vec<Token>> {
+    let mut out: Vec<Vec<Token>> = vec![];
+    let mut i = 0;
+    while i < toks.len() {
+        let is_select = matches!(&toks[i], Token::Word(w) if w.keyword == Keyword::SELECT);
+        if is_select && i + 1 < toks.len() && matches!(&toks[i + 1], Token::Number(_, false)) {
+            out.push(vec![toks[i].clone(), toks[i + 1].clone()]);
+            i += 2;
+        } else {
+            out.push(vec![toks[i].clone()]);
+            i += 1;
+        }
+    }
+    out
+}
+
+pub fn real_setops(d: &dyn Dialect, limit: usize, toks: &[Token]) -> String {
+    let n = toks.len();
+    match guard(|| {
+        let mut p = Parser::new(d).with_recursion_limit(limit).with_tokens(toks.to_vec());
+        let e = p.parse_query();
+        let _ = p.peek_token();
+        (e, p.verif_state().0)
+    }) {
+        G::Val((Ok(q), idx)) => match query_body_sexp(&q) {
+            Some(s) => format!("OK {s} REST {}", n.saturating_sub(idx)),
+            None => "UNSUPPORTED".into(),
+        },
+        G::Val((Err(e), _)) => err_line(&e),
+        G::Panic(m) => format!("PANIC {m}"),
+    }
+}
+
+/// request `setops \t dialect \t limit \t tokens`; answer as for `chains`
+pub fn corr_setops(dir: &str, seed: u64, tier: &str) -> Report {
+    let mut r = Report::new("C04", "corr.setops", "parse_query on token lists over SELECT n, UNION/EXCEPT/INTERSECT with every quantifier, parentheses: all operator sequences up to length 4 (thorough: 5) x quantifier rotation, parentheses around every contiguous sub-chain, every truncation / single-token drop of the length-3 chains, random chains of 5-9 operators with random nested parentheses, parenthesis nesting around the recursion limit; all 13 dialects; non-trivial = distinct (dialect, answer)");
+    let thorough = tier == "thorough";
+    let mut req = std::io::BufWriter::new(std::fs::File::create(format!("{dir}/setops.req")).unwrap());
+    let mut real = std::io::BufWriter::new(std::fs::File::create(format!("{dir}/setops.real")).unwrap());
+    let mut rng = Rng(seed ^ 0x5E70);
+    let mut distinct = BTreeSet::new();
+    let ops = ["UNION", "EXCEPT", "INTERSECT"];
+    let quants = ["", "ALL", "DISTINCT", "BY NAME", "ALL BY NAME", "DISTINCT BY NAME"];
+    let mut emit = |r: &mut Report, dn: &str, d: &dyn Dialect, limit: usize, toks: &[Token], class: &str| {
+        writeln!(req, "setops\t{dn}\t{limit}\t{}", toks_canon_noloc(toks)).unwrap();
+        let ans = real_setops(d, limit, toks);
+        r.evaluations += 1;
+        r.count(&format!("class/{class}"));
+        let k = if ans.starts_with("OK") { "ok" } else if ans.starts_with("ERR:rle") { "err.rle" } else if ans.starts_with("ERR") { "err.syntax" } else if ans.starts_with("UNSUPPORTED") { "unsupported" } else { "panic" };
+        r.count(&format!("answer/{k}"));
+        if k == "ok" {
+            for o in ["union", "except", "intersect"] {
+                let c = ans.matches(&format!("(setop {o} ")).count() as u64;
+                *r.dist.entry(format!("op/{o}")).or_insert(0) += c;
+            }
+            *r.dist.entry("op/query".into()).or_insert(0) += ans.matches("(query ").count() as u64;
+        }
+        if k == "panic" {
+            r.panic(dn, Opts::DEFAULT, &toks_canon_noloc(toks), ans.clone());
+        }
+        distinct.insert(fnv(&format!("{dn}{ans}")));
+        if r.evaluations % 5003 == 7 {
+            r.sample(serde_json::json!({"dialect": dn, "limit": limit, "tokens": toks.iter().map(|t| t.to_string()).collect::<Vec<_>>().join(" "), "answer": trunc(&ans, 300)}));
+        }
+        writeln!(real, "{ans}").unwrap();
+    };
+    // chain text: operands SELECT 1, SELECT 2, …; `group = Some((i, j))` parenthesises operands i..=j
+    fn chain(opsq: &[(usize, usize)], groups: &[(usize, usize)]) -> String {
+        let ops = ["UNION", "EXCEPT", "INTERSECT"];
+        let quants = ["", "ALL", "DISTINCT", "BY NAME", "ALL BY NAME", "DISTINCT BY NAME"];
+        let n = opsq.len() + 1;
+        let mut s = String::new();
+        for i in 0..n {
+            if i > 0 {
+                let (o, q) = opsq[i - 1];
+                s.push_str(&format!(" {} {} ", ops[o], quants[q]));
+            }
+            for g in groups {
+                if g.0 == i {
+                    s.push('(');
+                }
+            }
+            s.push_str(&format!("SELECT {}", i + 1));
+            for g in groups {
+                if g.1 == i {
+                    s.push(')');
+                }
+            }
+        }
+        s
+    }
+    for (dn, d) in all_dialects() {
+        let d = d.as_ref();
+        let lim = 50usize;
+        let maxlen = if thorough { 5 } else { 4 };
+        // all operator sequences, quantifiers rotating
+        let mut idx = 0usize;
+        for len in 0..=maxlen {
+            let total = 3usize.pow(len as u32);
+            for code in 0..total {
+                let mut c = code;
+                let mut opsq = vec![];
+                for k in 0..len {
+                    opsq.push((c % 3, (idx + k * 5) % 6));
+                    c /= 3;
+                }
+                idx += 1;
+                let sql = chain(&opsq, &[]);
+                let toks = match lex_nows(d, &sql) { Some(t) => t, None => continue };
+                emit(&mut r, dn, d, lim, &toks, "chain");
+                // parentheses around every contiguous sub-chain
+                let n = len + 1;
+                for i in 0..n {
+                    for j in i..n {
+                        if (i, j) == (0, n - 1) && n > 3 { continue; }
+                        let sql = chain(&opsq, &[(i, j)]);
+                        if let Some(t) = lex_nows(d, &sql) { emit(&mut r, dn, d, lim, &t, "chain.paren"); }
+                    }
+                }
+                if len == 3 || (thorough && len == 2) {
+                    let us = set_units(&toks);
+                    for k in 0..us.len() {
+                        emit(&mut r, dn, d, lim, &us[..k].concat(), "truncated");
+                        let mut t = us.clone();
+                        t.remove(k);
+                        emit(&mut r, dn, d, lim, &t.concat(), "dropped");
+                    }
+                }
+            }
+        }
+        // every quantifier on every operator, alone
+        for o in 0..3 {
+            for q in 0..6 {
+                let sql = chain(&[(o, q)], &[]);
+                if let Some(t) = lex_nows(d, &sql) { emit(&mut r, dn, d, lim, &t, "quantifier"); }
+                let sql = format!("SELECT 1 {} {} (SELECT 2 {} {} SELECT 3)", ops[o], quants[q], ops[(o + 1) % 3], quants[(q + 1) % 6]);
+                if let Some(t) = lex_nows(d, &sql) { emit(&mut r, dn, d, lim, &t, "quantifier"); }
+            }
+        }
+        // random chains with nested parentheses
+        let nrand = if thorough { 20000 } else { 1500 };
+        for k in 0..nrand {
+            let len = 5 + rng.below(5);
+            let opsq: Vec<(usize, usize)> = (0..len).map(|_| (rng.below(3), if rng.chance(1, 2) { 0 } else { rng.below(6) })).collect();
+            let mut groups = vec![];
+            for _ in 0..rng.below(4) {
+                let i = rng.below(len + 1);
+                let j = i + rng.below(len + 1 - i);
+                groups.push((i, j));
+            }
+            let sql = chain(&opsq, &groups);
+            if let Some(toks) = lex_nows(d, &sql) {
+                emit(&mut r, dn, d, lim, &toks, "random");
+                if k % 8 == 0 && !toks.is_empty() {
+                    let us = set_units(&toks);
+                    let cut = rng.below(us.len());
+                    emit(&mut r, dn, d, lim, &us[..cut].concat(), "random.truncated");
+                    let mut t = us.clone();
+                    t.remove(cut);
+                    emit(&mut r, dn, d, lim, &t.concat(), "random.dropped");
+                    let mut t = us.clone();
+                    let j = rng.below(us.len());
+                    t.swap(cut, j);
+                    emit(&mut r, dn, d, lim, &t.concat(), "random.swapped");
+                }
+            }
+        }
+        // nesting around the limit
+        for limit in [0usize, 1, 2, 3, 5, 50] {
+            for depth in limit.saturating_sub(3)..=limit + 2 {
+                let open = "(".repeat(depth);
+                let close = ")".repeat(depth);
+                for core in ["SELECT 1", "SELECT 1 UNION SELECT 2", "SELECT 1 UNION SELECT 2 INTERSECT SELECT 3"] {
+                    if let Some(t) = lex_nows(d, &format!("{open}{core}{close}")) { emit(&mut r, dn, d, limit, &t, "deep.paren"); }
+                }
+                let mut s = String::from("SELECT 0");
+                for i in 0..depth {
+                    s = format!("SELECT {} UNION ({s})", i + 1);
+                }
+                if let Some(t) = lex_nows(d, &s) { emit(&mut r, dn, d, limit, &t, "deep.right"); }
+                let mut s = String::from("SELECT 0");
+                for i in 0..depth {
+                    s = format!("({s}) INTERSECT SELECT {}", i + 1);
+                }
+                if let Some(t) = lex_nows(d, &s) { emit(&mut r, dn, d, limit, &t, "deep.left"); }
+            }
+            let s = (0..300).map(|i| format!("SELECT {i}")).collect::<Vec<_>>().join(" UNION ");
+            if let Some(t) = lex_nows(d, &s) { emit(&mut r, dn, d, limit, &t, "deep.siblings"); }
+        }
+        // odd inputs
+        for s in ["", "SELECT", "SELECT 1 SELECT 2", "SELECT 1 ALL", "UNION SELECT 1", "SELECT 1 UNION", "SELECT 1 UNION UNION SELECT 2", "()", "(SELECT 1", "SELECT 1)", "(SELECT 1) (SELECT 2)", "SELECT 1 UNION ALL ALL SELECT 2", "SELECT 1 UNION BY SELECT 2", "SELECT 1 UNION DISTINCT BY SELECT 2", "VALUES (1) UNION SELECT 2", "SELECT 1 UNION VALUES (2)", "SELECT 1 ORDER BY 1", "(SELECT 1 ORDER BY 1) UNION SELECT 2", "SELECT 1 UNION SELECT 2 LIMIT 1", "SELECT a UNION SELECT 2", "SELECT 1, 2 UNION SELECT 3", "WITH x AS (SELECT 1) SELECT 2 UNION SELECT 3", "((SELECT 1) UNION (SELECT 2))", "SELECT 1L UNION SELECT 2"] {
+            if let Some(t) = lex_nows(d, s) { emit(&mut r, dn, d, lim, &t, "odd"); }
+        }
+    }
+    drop(emit);
+    req.flush().unwrap();
+    real.flush().unwrap();
+    r.distinct_nontrivial = distinct.len() as u64;
     r
 }
 
